@@ -154,7 +154,7 @@ impl<Req: VClone, Res, E> ReconnectService<Req, Res, E> {
         ensures
             r matches Poll::Ready(Ok(_)) ==> final(self).inner.ready@,   // #ready_only_when_inner_ready [C20]
             r matches Poll::Ready(Err(e)) ==> e is ServiceError,   // #readiness_errors_surface_as_service_error [C20]
-            final(self).config == old(self).config,   // #frame
+            final(self).config == old(self).config,   // #shared_state_handles_and_configuration_are_left_untouched [C16]
     //@body ReconnectService::poll_ready@Service
 
     /// call() makes the first attempt synchronously and returns the hand-written future
